@@ -49,6 +49,9 @@ pub mod storage;
 pub mod types;
 /// Utilities.
 pub mod utils;
+/// Hooks for the external verification harness (feature `verif`).
+#[cfg(feature = "verif")]
+pub mod verif;
 
 #[cfg(feature = "jemalloc")]
 use tikv_jemallocator::Jemalloc;
